@@ -102,6 +102,14 @@ func OverlayAll(repoDir, harnessDir, pkg string, with []string) (map[string][]by
 	if err != nil {
 		return nil, err
 	}
+	// with.json in the harness directory: packages whose harness files this package's harnesses import
+	if wb, err := os.ReadFile(filepath.Join(harnessDir, pkg, "with.json")); err == nil {
+		var always []string
+		if err := json.Unmarshal(wb, &always); err != nil {
+			return nil, fmt.Errorf("with.json: %v", err)
+		}
+		with = append(append([]string{}, with...), always...)
+	}
 	for _, w := range with {
 		o2, err := Overlay(repoDir, harnessDir, w, false)
 		if err != nil {
